@@ -80,32 +80,35 @@ inductive Prog where
   | ifone (r : Nat) (t e : Prog)      -- if (qrIsUnity(r)) t else e
   deriving Repr, DecidableEq
 
-abbrev Store (F : Type) := Nat → F
+/-- register store.  (A structure around the function, not a bare `Nat → F`: the compiler would
+    otherwise eta-expand `exec`/`run` and recompute an instruction at every read of its result.) -/
+structure Store (F : Type) where
+  get : Nat → F
 
-@[inline] def upd {F : Type} (st : Store F) (d : Nat) (v : F) : Store F :=
-  fun i => if i = d then v else st i
+def upd {F : Type} (st : Store F) (d : Nat) (v : F) : Store F :=
+  ⟨fun i => if i = d then v else st.get i⟩
 
 def Instr.exec {F : Type} (f : Fld F) (st : Store F) : Instr → Store F
-  | .sqr d a => upd st d (f.mul (st a) (st a))
-  | .mul d a b => upd st d (f.mul (st a) (st b))
-  | .add d a b => upd st d (f.add (st a) (st b))
-  | .sub d a b => upd st d (f.sub (st a) (st b))
-  | .neg d a => upd st d (f.neg (st a))
-  | .dbl d a => upd st d (f.dbl (st a))
-  | .half d a => upd st d (f.half (st a))
-  | .copy d a => upd st d (st a)
+  | .sqr d a => upd st d (f.mul (st.get a) (st.get a))
+  | .mul d a b => upd st d (f.mul (st.get a) (st.get b))
+  | .add d a b => upd st d (f.add (st.get a) (st.get b))
+  | .sub d a b => upd st d (f.sub (st.get a) (st.get b))
+  | .neg d a => upd st d (f.neg (st.get a))
+  | .dbl d a => upd st d (f.dbl (st.get a))
+  | .half d a => upd st d (f.half (st.get a))
+  | .copy d a => upd st d (st.get a)
   | .zero d => upd st d f.zero
   | .one d => upd st d f.one
-  | .inv d a => upd st d (f.inv (st a))
-  | .div d a b => upd st d (f.mul (st a) (f.inv (st b)))
-  | .pow d a e => upd st d (f.pow (st a) e)
+  | .inv d a => upd st d (f.inv (st.get a))
+  | .div d a b => upd st d (f.mul (st.get a) (f.inv (st.get b)))
+  | .pow d a e => upd st d (f.pow (st.get a) e)
 
 def Prog.run {F : Type} (f : Fld F) : Prog → Store F → Store F × Bool
   | .ret b, st => (st, b)
   | .seq i k, st => k.run f (i.exec f st)
-  | .ifz r t e, st => if f.eqb (st r) f.zero then t.run f st else e.run f st
-  | .ifeq r s t e, st => if f.eqb (st r) (st s) then t.run f st else e.run f st
-  | .ifone r t e, st => if f.eqb (st r) f.one then t.run f st else e.run f st
+  | .ifz r t e, st => if f.eqb (st.get r) f.zero then t.run f st else e.run f st
+  | .ifeq r s t e, st => if f.eqb (st.get r) (st.get s) then t.run f st else e.run f st
+  | .ifone r t e, st => if f.eqb (st.get r) f.one then t.run f st else e.run f st
 
 /-- a block of straight-line code followed by a continuation -/
 def Prog.block : List Instr → Prog → Prog
